@@ -77,7 +77,7 @@ func vfAclAlphabet(thorough bool) []vfAclOp {
 	}
 	for _, u := range []int{0, 1} {
 		ops = append(ops, vfAclOp{Kind: "deltopic", Actor: u, Hard: true}, vfAclOp{Kind: "deltopic", Actor: u, Hard: false},
-			vfAclOp{Kind: "setpub", Actor: u}, vfAclOp{Kind: "setdefacs", Actor: u}, vfAclOp{Kind: "settags", Actor: u})
+			vfAclOp{Kind: "setpub", Actor: u}, vfAclOp{Kind: "setdefacs", Actor: u}, vfAclOp{Kind: "settags", Actor: u}, vfAclOp{Kind: "setpriv", Actor: u})
 	}
 	ops = append(ops, vfAclOp{Kind: "reload"})
 	return ops
@@ -110,6 +110,8 @@ func (t *vfTW) aclRequest(o vfAclOp) (string, *vfClient) {
 		return fmt.Sprintf(`{"set":{"id":"$ID","topic":"%s","desc":{"public":{"fn":"by-u%d"}}}}`, t.grp, o.Actor), c
 	case "setdefacs":
 		return fmt.Sprintf(`{"set":{"id":"$ID","topic":"%s","desc":{"defacs":{"auth":"JRWP","anon":"JR"}}}}`, t.grp), c
+	case "setpriv":
+		return fmt.Sprintf(`{"set":{"id":"$ID","topic":"%s","desc":{"private":{"note":"of-u%d"}}}}`, t.grp, o.Actor), c
 	case "settags":
 		return fmt.Sprintf(`{"set":{"id":"$ID","topic":"%s","tags":["by%dxx","tagone"]}}`, t.grp, o.Actor), c
 	}
